@@ -196,10 +196,21 @@ def run(ck):
         long_ = "a" * (k % 3) + "é" * k
         forms += ["module M\nstruct S { a: \"%s\" }\n" % long_, "module M\nstruct S { a:\n/// %s\nint32 }\n" % long_, "module M\nstruct %s {}\n" % long_, "module \"%s\"\n" % long_,
                   "module M\n[x::a(\"%s\" \"%s\")] struct S {}\n" % (long_, long_), "module M\nstruct S {} /// %s" % long_, "module M\ninterface I { op() -> \"%s😀\" }\n" % long_]
+    # every prefix of programs that carry a doc comment (well-formed, malformed, with broken links) and an allow attribute on every kind of element:
+    # what was already reported about an element must stay harmless when a syntax error follows it, wherever the text stops
+    rich = [
+        "module M\nenum E {\n    /// a {@link\n    [allow(All)] A(\n        /// {@link Nope} @x\n        [allow(BrokenDocLink)] f: int32,\n        /// @param\n        g: Sequence<E?>\n    ) = 3\n    /// @see\n    B\n}\n"
+        "/// {@link E::A::f}\n[allow(MalformedDocComment)] struct S {\n    /// {@link\n    a: E,\n    /// @returns x\n    tag(1) b: int32?\n}\n",
+        "module M\ninterface I {\n    /// @param p: {@link\n    /// @returns: x {@link I::op::p}\n    [allow(All)] op(\n        [deprecated] p: int32,\n        q: Dictionary<string, I2?>\n    ) -> (\n        /// nope\n        r: bool,\n        s: stream int32\n    )\n    /// @throws\n    op2() -> string\n}\n/// {@link I::op}\ninterface I2 : I {}\n",
+        "[[allow(All)]]\n/// doc\nmodule M\n/// {@link\n[deprecated(\"x\")] typealias A = [x::y] Sequence<B>\n/// @see B {@link A}\ncustom B\nunchecked enum U : uint8 {\n    /// {@\n    X = 1,\n    Y\n}\n#if X\nstruct T { a: A }\n#else\n/// {@link\nstruct T { u: U }\n#endif\n",
+    ]
+    for t in rich:
+        forms += [t[:k] for k in range(1, len(t))]
+        forms += [t[:k] + tail for k in range(20, len(t), 7) for tail in ("}", " B", "\n}\nstruct Z {", " !", ")")]
     # every form once more with CRLF line ends (diagnostics are also rendered with their snippets by the harness)
     forms += [t.replace("\n", "\r\n") for t in forms if len(t) < 400 and "\r" not in t]
     o3 = core.run_impl("diags", ["diags - " + hx(t) for t in forms], chunk=200, timeout=120)
-    ck.stream("forms", description="all forms with LF and with CRLF line ends, diagnostics rendered with snippets; directives cut short at the end of their line; long non-ASCII tokens in unexpected places; every Unicode white-space character (and zero-width look-alikes, NUL) at every gap of every preprocessor directive and of ordinary source; every inheritance and containment graph over three definitions (containment also over compact structs used as dictionary keys); 24 doc comment bodies (links in overviews and in every tag, tags that do not fit, unterminated and empty links, comments that start right after the slashes with nothing, non-ASCII text or wide white space) on 20 kinds of element and places where none is allowed (parameters, return members, modules, types); every type form (primitive, optional, sequence, dictionary, result, struct/enum/interface/custom/alias names, global, unknown, module name, nested, attributed, malformed) in every type position "
+    ck.stream("forms", description="all forms with LF and with CRLF line ends, diagnostics rendered with snippets; every prefix (also followed by a stray token) of four programs with doc comments, links and allow attributes on every kind of element; directives cut short at the end of their line; long non-ASCII tokens in unexpected places; every Unicode white-space character (and zero-width look-alikes, NUL) at every gap of every preprocessor directive and of ordinary source; every inheritance and containment graph over three definitions (containment also over compact structs used as dictionary keys); 24 doc comment bodies (links in overviews and in every tag, tags that do not fit, unterminated and empty links, comments that start right after the slashes with nothing, non-ASCII text or wide white space) on 20 kinds of element and places where none is allowed (parameters, return members, modules, types); every type form (primitive, optional, sequence, dictionary, result, struct/enum/interface/custom/alias names, global, unknown, module name, nested, attributed, malformed) in every type position "
               "(field, base, second base, underlying type, alias target, dictionary key/value, parameter, return tuple, enumerator field, tagged, compact, streamed, element, link); containment/alias/inheritance cycles; "
               "every program of three aliases over {name, sequence, dictionary, result} x {A, B, C, int32} (4096, exhaustive); malformed and boundary integer literals in every literal position; mixed-width and CRLF doc comments; deep nesting (300), long lists (3000), long chains (300-400), unterminated constructs")
     for t, oo in zip(forms, o3):
@@ -282,7 +293,10 @@ def run(ck):
                 extra += [opt, rng.choice(vals)]
         files = []
         for j in range(rng.choice([0, 1, 1, 2, 3])):
-            files.append((rng.choice("SSR"), "f%d.slice" % j, rng.choice(["", "module M%d\n" % j, "module M\nstruct S%d {}\n" % j, "// c\n", "struct X {}\n", "module M\nstruct S { a: Nope }\n", "﻿", "#if X\n"])))
+            files.append((rng.choice("SSR"), "f%d.slice" % j, rng.choice(["", "module M%d\n" % j, "module M\nstruct S%d {}\n" % j, "// c\n", "struct X {}\n", "module M\nstruct S { a: Nope }\n", "﻿", "#if X\n",
+                # values at the ends of every range: what is compiled is also handed to the generators (with or without any)
+                "module M%d\nenum E : uint64 { A = 9223372036854775808, B = 18446744073709551615, C = 0 }\nenum F : int64 { A = -9223372036854775808, B = 9223372036854775807 }\nunchecked enum G : varuint62 { A = 4611686018427387903 }\n"
+                "enum H { A = 2147483647, B(tag(2147483647) x: int32?) = 0 }\nstruct T { tag(0) a: bool?, tag(2147483647) b: bool? }\n" % j])))
         if rng.random() < 0.15:
             # a reference directory that contains itself through symbolic links (one link, two links, two directories linking to each other)
             files.append(("R", "refs/r.slice", "module R\ncustom C\n"))
@@ -293,12 +307,17 @@ def run(ck):
                     files.append(("X", "refs/b/y.slice", "module B\ncustom Y\n"))
                 files.append(("L", nm, tgt))
             extra += ["-R", "refs"]
+        if rng.random() < 0.12:
+            # a reference directory with files and directories whose names are not UTF-8
+            files.append(("R", "odd/ok.slice", "module Odd\ncustom C\n"))
+            files.append(("B", rng.choice([b"odd/caf\xe9.slice", b"odd/\xff\xfe.slice", b"odd/sub\xe9/inner.slice", b"odd/\xc3(.slice"]), "module Bytes%d\ncustom B\n" % i))
+            extra += ["-R", "odd"]
         gens = [("gen-%s-%d" % (rng.choice(["ok", "ok", "bigstderr", "bigout", "bigboth", "stderr", "exit1", "noread", "sigkill", "empty"]), g), rng.choice([None, "a=b", "k"]), None) for g in range(rng.choice([0, 0, 1, 2]))]
         lines.append(dc.run_line(False, extra, gens, files))
         metas.append((extra, files, gens))
     o5 = dc.run_all(lines, chunk=15, timeout=120)
     ck.stream("command-lines", description="the real binary with random -D/-A/-G/-O/-R/--diagnostic-format/--dry-run options whose values include the empty string, blanks, separators, unknown names; "
-              "0-3 files including empty, comment-only, module-less, BOM-only and directive-only ones; 0-2 generators that behave, fail, or write a megabyte to stderr, stdout or both; reference directories that contain themselves through symbolic links")
+              "0-3 files including empty, comment-only, module-less, BOM-only and directive-only ones; 0-2 generators that behave, fail, or write a megabyte to stderr, stdout or both; reference directories that contain themselves through symbolic links or hold files whose names are not UTF-8; enumerator values and tags at the ends of their ranges")
     for (extra, files, gens), line, oo in zip(metas, lines, o5):
         case = "options: %r\nfiles: %r" % (extra, [(k, n, t) for k, n, t in files])
         ck.count("command-lines", line)
